@@ -70,7 +70,14 @@ func main() {
 		c.Replay = true
 		prop.Replay(c, rf.Case)
 	} else {
-		c = vf.NewCtx(prop.ID, args[1], seed)
+		// an auxiliary harness (e.g. C17X) may run under the property it belongs to (-as C17)
+		as := prop.ID
+		for i := 2; i+1 < len(args); i++ {
+			if args[i] == "-as" {
+				as = args[i+1]
+			}
+		}
+		c = vf.NewCtx(as, args[1], seed)
 		prop.Run(c)
 	}
 	res := c.Finish()
